@@ -28,6 +28,9 @@ type Env struct {
 	headSt   *State // state at the head of the enclosing loop (for head(e))
 	heapSt   *State // when set, heap and world reads use this state (oldheap(e)) while variables use st
 	callRet  func(name string, ord, idx int) (SV, bool)
+	// call-site clauses (`call X requires`): names bound to the ARGUMENTS of the call (callee parameter names). Inside old(..)
+	// they do not shadow the caller's own variables: old(x) is the caller's x at function entry
+	calleeVars map[string]bool
 }
 
 func (e *Env) hst() *State {
@@ -465,6 +468,18 @@ func (e *Env) evalCall(x *Expr) (SV, error) {
 		}
 		if e.old == nil {
 			return SV{}, serr("old() used where no pre-state is available: %s", x)
+		}
+		if len(e.calleeVars) > 0 {
+			// an argument term has no entry value; without this, `arg == old(arg)` compared the argument with itself
+			ne := e.withState(e.old)
+			ne.vars = map[string]SV{}
+			for k, sv := range e.vars {
+				if !e.calleeVars[k] {
+					ne.vars[k] = sv
+				}
+			}
+			ne.calleeVars = nil
+			return ne.Eval(x.Args[0])
 		}
 		return e.withState(e.old).Eval(x.Args[0])
 	case "ret":
